@@ -96,6 +96,11 @@ func (j *job) Run() {
 
 	defer j.runner.raffle.returnTicket(ticket)
 	defer verifhook.FaultOn(j.runner, "job.beforeReturn", j)
+	// the errors the wrapped sink collected go into the stored result while the run still holds its ticket: once
+	// it is returned the next run of this job resets the wrapped sink and stores a result of its own
+	defer func() {
+		j.recordSinkErrors(&pipelineErr)
+	}()
 	msg := "job"
 	if j.isEvent {
 		msg = "event"
